@@ -18,6 +18,7 @@ HERE = os.path.dirname(os.path.dirname(os.path.abspath(__file__)))
 
 def main():
     prop, shard, tier, seed, budget, out = sys.argv[1:7]
+    os.environ["VERIF_WORKER_OUT"] = out
     seed = int(seed)
     budget = float(budget)
     warnings.filterwarnings("ignore")
